@@ -49,6 +49,23 @@ mut("c17-outcross-accept-equal", "C17", SP, "            if score < gbest_score:
 mut("c17-outcross-early-stop", "C17", SP, "        iterate = not local_optima              # update whether to continue climbing", "        iterate = (not local_optima) and gbest_score > 1", "stops climbing when one repeat is left")
 mut("c17-outcross-half-pairs", "C17", SP, "for j in range(i+1, len(xravel))])", "for j in range(i+1, min(len(xravel), i+9))])", "exchange pairs further than 8 apart never tried")
 
+# ---------------------------------------------------------------- C01
+MU = "pybrops/breed/prot/mate/util.py"
+CU = "pybrops/core/util/mate.py"
+mut("c01-xo-le", "C01", MU, "xoix = numpy.flatnonzero(rnd[i] < xoprob)", "xoix = numpy.flatnonzero(rnd[i] <= xoprob)", "crossover when draw == probability (incl. 0)")
+mut("c01-core-xo-le", "C01", CU, "xoix = numpy.flatnonzero(rnd[i] < xoprob)", "xoix = numpy.flatnonzero(rnd[i] <= xoprob)", "same in core.util.mate")
+mut("c01-swap-fsel-msel", "C01", "pybrops/breed/prot/mate/TwoWayCross.py", "hgeno = mat_mate(geno, geno, fsel, msel, xoprob, self.rng)", "hgeno = mat_mate(geno, geno, msel, fsel, xoprob, self.rng)", "female/male swapped")
+mut("c01-phase-not-alternated", "C01", MU, "            phase = 1 - phase\n", "            phase = 1 - phase if spix % 5 else phase\n", "phase not alternated at every fifth marker -> still a mosaic; only C02 can see it", expect="MISSED")
+mut("c01-stix-off-by-one", "C01", MU, "            stix = spix\n", "            stix = spix + (1 if spix == 7 else 0)\n", "copy boundary off by one at marker 7 (uninitialised cell)")
+mut("c01-array-counts-2w", "C01", "pybrops/breed/prot/mate/TwoWayCross.py", "        msel = numpy.repeat(xconfig[:,1], nmating * nprogeny)", "        msel = numpy.repeat(xconfig[:,1], (nmating * nprogeny)[::-1])", "male repeats use reversed per-cross counts")
+mut("c01-3w-recurrent-wrong-col", "C01", "pybrops/breed/prot/mate/ThreeWayCross.py", "rsel = numpy.repeat(xconfig[:,0], nmating * nprogeny)", "rsel = numpy.repeat(xconfig[:,1], nmating * nprogeny)", "recurrent parent taken from the female column", count=0)
+mut("c01-family-misaligned", "C01", "pybrops/breed/prot/mate/FourWayDHCross.py", "            numpy.repeat(nprogeny, nmating)\n        )\n        self.family_counter += nfam", "            numpy.repeat(nprogeny, nmating)[::-1]\n        )\n        self.family_counter += nfam", "family label repeat counts reversed")
+mut("c01-dh-not-doubled", "C01", MU, "    progeny = numpy.stack([gamete, gamete])\n", "    progeny = numpy.stack([gamete, mat_meiosis(geno, sel, xoprob, rng)])\n", "DH built from two independent gametes")
+mut("c01-selfing-uses-parents", "C01", "pybrops/breed/prot/mate/TwoWayDHCross.py", "            hgeno = mat_mate(hgeno, hgeno, asel, asel, xoprob, self.rng)", "            hgeno = mat_mate(hgeno, geno, asel, fsel, xoprob, self.rng)", "selfing generation backcrosses to the female instead: labels stay within the cross union, so only the segregation clause of C02 can see it", expect="MISSED")
+mut("c01-counter-not-advanced", "C01", "pybrops/breed/prot/mate/SelfCross.py", "        self.progeny_counter += progcnt", "        self.progeny_counter += max(progcnt - 1, 0)", "progeny counter advances by one too few")
+mut("c01-xoprob-not-carried", "C01", "pybrops/breed/prot/mate/ThreeWayDHCross.py", "            vrnt_xoprob = pgmat.vrnt_xoprob,", "            vrnt_xoprob = pgmat.vrnt_xoprob * 1.0 if pgmat.nvrnt < 9 else pgmat.vrnt_xoprob[::-1].copy(),", "crossover probabilities reversed in progeny with >= 9 markers")
+mut("c01-parent-mutated", "C01", "pybrops/breed/prot/mate/FourWayCross.py", "        geno = pgmat.mat\n", "        geno = pgmat.mat\n        if len(xconfig) == 5: geno[0,0,0] = geno[1,0,0]\n", "parent matrix written when there are exactly 5 crosses")
+
 
 def run_one(m, runs, tier_args=()):
     scratch = "/dev/shm/pybrops-mut-%s-%d" % (m["id"], os.getpid())
@@ -95,6 +112,9 @@ def main(argv):
             continue
         verdict, detail = run_one(m, runs)
         print("%-14s %-34s %s  %s" % (verdict, m["id"], m["prop"], detail), flush=True)
+        if m["expect"] == "MISSED":
+            print("   (expected to be missed by this check: %s)" % m["note"])
+            continue
         if verdict != "CAUGHT" and not (m["expect"] == "NONZERO" and verdict == "HARNESS-ERROR"):
             missed += 1
     return 1 if missed else 0
